@@ -220,10 +220,13 @@ type c09Room struct {
 	// a second room in the same pool (same process): create, members, power levels with and
 	// without notification levels, and power_levels events to check there
 	room2 c09Room2
+	// other events of THIS room for heidi's membership, alice's membership, the third_party_invite "tok"
+	altSame []int
 }
 
 type c09Room2 struct {
 	create, alice, bob int
+	heidi, jr, tpi     int // heidi's join, join rules (public), third_party_invite "tok" of the second room
 	pls               []int // notifications absent / null / room=100
 	cands             []c09Cand
 }
@@ -450,6 +453,17 @@ func newC09Room(ver gmsl.RoomVersion) *c09Room {
 	r.room2.create = c2
 	r.room2.alice = w.mkIn(room2, spec.MRoomMember, uAlice, c09sp(uAlice), map[string]interface{}{"membership": "join"}, []string{w.pool[c2].id})
 	r.room2.bob = w.mkIn(room2, spec.MRoomMember, uBob, c09sp(uBob), map[string]interface{}{"membership": "join"}, nil)
+	r.room2.heidi = w.mkIn(room2, spec.MRoomMember, uHeidi, c09sp(uHeidi), map[string]interface{}{"membership": "join"}, nil)
+	r.room2.jr = w.mkIn(room2, spec.MRoomJoinRules, uAlice, c09sp(""), map[string]interface{}{"join_rule": "public"}, nil)
+	r.room2.tpi = w.mkIn(room2, spec.MRoomThirdPartyInvite, uBob, c09sp("tok"), map[string]interface{}{"display_name": "x", "key_validity_url": "https://id/valid",
+		"public_key":  spec.Base64Bytes(pub),
+		"public_keys": []interface{}{map[string]interface{}{"public_key": spec.Base64Bytes(pub), "key_validity_url": "https://id/valid"}}}, nil)
+	// this room: other events for heidi's, alice's membership and the third_party_invite
+	r.altSame = []int{
+		w.mk(spec.MRoomMember, uHeidi, c09sp(uHeidi), map[string]interface{}{"membership": "leave"}, nil),
+		w.mk(spec.MRoomMember, uAlice, c09sp(uAlice), map[string]interface{}{"membership": "leave"}, nil),
+		w.mk(spec.MRoomThirdPartyInvite, uBob, c09sp("tok"), map[string]interface{}{"display_name": "other"}, nil),
+	}
 	r.room2.pls = []int{
 		plWith(room2, uAlice, users, nil),
 		plWith(room2, uAlice, users, map[string]interface{}{"notifications": nil}),
@@ -819,6 +833,56 @@ func init() {
 		}
 		return args, B(strings.Join(out, ","))
 	})
+	// same arguments as C09.order -> "verdict for every insertion order|verdict of a NEW provider that is
+	// given only the entries held in the end (the last event of every (type, state_key))": the rooms a
+	// provider has seen are the rooms of the entries it holds, no more (an entry that was replaced), no
+	// less (an entry that is still there). Odd orders go through AddEvent on an empty provider.
+	RegisterImpl("C09.replace", func(args [][]byte) ([][]byte, []byte) {
+		ver := gmsl.RoomVersion(args[0])
+		ev, _, err := c09Parse(ver, args[1])
+		if err != nil {
+			return args, B("badevent")
+		}
+		var orders [][]int
+		if err := json.Unmarshal(args[2], &orders); err != nil {
+			return args, B("badorders")
+		}
+		pool, err := c09PoolFromArgs(ver, args[4:])
+		if err != nil {
+			return args, B("badpool")
+		}
+		full, held := make([]string, len(orders)), make([]string, len(orders))
+		for i, o := range orders {
+			evs := c09Pick(pool, o)
+			if i%2 == 0 {
+				full[i] = c09OneShot(ev, evs)
+			} else {
+				full[i] = c09Safe(func() error {
+					p, _ := gmsl.NewAuthEvents(nil)
+					for _, e := range evs {
+						if err := p.AddEvent(e); err != nil {
+							return err
+						}
+					}
+					return gmsl.Allowed(ev, p, c09Querier)
+				})
+			}
+			last := map[gmsl.StateKeyTuple]int{}
+			for j, e := range evs {
+				if e.StateKey() != nil {
+					last[gmsl.StateKeyTuple{EventType: e.Type(), StateKey: *e.StateKey()}] = j
+				}
+			}
+			var winners []gmsl.PDU
+			for j, e := range evs {
+				if e.StateKey() != nil && last[gmsl.StateKeyTuple{EventType: e.Type(), StateKey: *e.StateKey()}] == j {
+					winners = append(winners, e)
+				}
+			}
+			held[i] = c09OneShot(ev, winners)
+		}
+		return args, B(strings.Join(full, ",") + "|" + strings.Join(held, ","))
+	})
 	// [ver; plan JSON; pool event ...] -> "state after the real authAndApplyEvents loop|state after
 	// checking every event on its own with Allowed against a new provider" (sorted event IDs)
 	RegisterImpl("C09.loop", func(args [][]byte) ([][]byte, []byte) {
@@ -1034,6 +1098,43 @@ func genC09Order(c *Ctx, vers []gmsl.RoomVersion, rooms map[gmsl.RoomVersion]*c0
 			if len(dups) == 0 {
 				continue
 			}
+			c09EmitOrder(c, r, cd, rule, base, dups)
+			c.Count("order/v=" + string(v))
+		}
+		// every kind of slot replaced by an event of the same room / of another room, the replaced and
+		// the replacing event in both orders, first and last
+		type slotCase struct {
+			slot, cand, rule string
+			other, same      int
+		}
+		for _, sc := range []slotCase{
+			{"create", "msg-bob", "public", r.room2.create, r.creates[5]},
+			{"power levels", "topic-bob", "public", r.room2.pls[0], r.pls[1]},
+			{"join rules", "join-grace-plain", "public", r.room2.jr, r.jrs["invite"]},
+			{"join rules", "knock-grace", "knock", r.room2.jr, r.jrs["public"]},
+			{"sender's membership", "msg-bob", "public", r.room2.bob, r.cand("leave-bob")},
+			{"target's membership", "kick-heidi-by-bob", "public", r.room2.heidi, r.altSame[0]},
+			{"authoriser's membership", "join-dave-via-alice", "restricted", r.room2.alice, r.altSame[1]},
+			{"third-party invite", "3pi-invite-grace-signed", "public", r.room2.tpi, r.altSame[2]},
+		} {
+			cd := c09Cand{sc.cand, r.cand(sc.cand)}
+			base := r.provider(c, cd.ev, c09Choice{rule: sc.rule})
+			for _, d := range []int{sc.other, sc.same} {
+				c09EmitOrder(c, r, cd, sc.rule, base, []int{d})
+				c.Count("order/slot=" + sc.slot)
+			}
+		}
+	}
+}
+
+// c09EmitOrder: base and dups inserted in many orders - through C09.order (same contents held =>
+// same verdict) and through C09.replace (the verdict is that of a new provider holding exactly
+// the entries that are held in the end).
+func c09EmitOrder(c *Ctx, r *c09Room, cd c09Cand, rule string, base, dups []int) {
+	w := r.w
+	v := w.ver
+	keyOf := func(i int) string { p := w.pool[i].pdu; return p.Type() + "\x00" + *p.StateKey() }
+	{
 			all := append(append([]int{}, base...), dups...) // positions 0..len-1 are the arguments
 			m := len(all)
 			var orders [][]int
@@ -1062,6 +1163,9 @@ func genC09Order(c *Ctx, vers []gmsl.RoomVersion, rooms map[gmsl.RoomVersion]*c0
 							var o3 []int // the pair last
 							o3 = append(append(o3, o[2:]...), t, d)
 							orders = append(orders, o3)
+							var o4 []int // the pair last, the other winner
+							o4 = append(append(o4, o[2:]...), d, t)
+							orders = append(orders, o4)
 						}
 					}
 				}
@@ -1077,8 +1181,7 @@ func genC09Order(c *Ctx, vers []gmsl.RoomVersion, rooms map[gmsl.RoomVersion]*c0
 			args := [][]byte{B(string(v)), w.pool[cd.ev].js, oj, c07SigTable(w.pool[cd.ev].js, evs)}
 			args = append(args, evs...)
 			c.Run("C09.order", args, "C09.order", "C09.prop.order_of_duplicates", fmt.Sprintf("order v%s: %s under %s, %d events, %d supplied twice", v, cd.name, rule, m, len(dups)))
-			c.Count("order/v=" + string(v))
-		}
+			c.Run("C09.replace", args, "C09.replace", "C09.prop.halves_equal", fmt.Sprintf("replace v%s: %s under %s, %d events, %d supplied twice", v, cd.name, rule, m, len(dups)))
 	}
 }
 
